@@ -158,7 +158,8 @@ pub enum Step {
     /// 6 Ed25519 identity (to_scalar_bytes / to_montgomery)
     XKey { p: u8, fl: u8, rng: Rng },
     /// party p receives pk and derives a shared secret (twice = duplicate delivery)
-    XDh { p: u8, pk: B },
+    /// peer = Some(q): pk is q's honest, unmodified public key (agreement is then checked)
+    XDh { p: u8, pk: B, peer: Option<u8> },
     XRaw { k: B, u: B },
     /// MontgomeryPoint * Scalar
     MMul { u: B, s: Sc },
